@@ -11,6 +11,7 @@ are not counted, by either. Only property theorems live here; helper lemmas are 
 `RuschmProofs/BracketLemmas.lean` (one lemma per scanner in `LexLemmas.lean`).
 -/
 import RuschmProofs.BracketLemmas
+import RuschmProofs.TextLemmas
 
 namespace Ruschm.C18
 open Ruschm Ruschm.Lex Ruschm.Text
@@ -34,18 +35,55 @@ theorem bracket_agrees_with_reader' (cs : List Char) (h : (Lex.all cs).2 = none)
     Bracket.closed cs = decide (depth ((Lex.all cs).1.map (·.tok)) ≤ 0) :=
   bracket_closed_eq cs _ (Prod.ext rfl h)
 
-section Example
-/-- `(f #\( "a)" ;)` + newline: one list is open; the parentheses in the character literal, the
-string and the comment do not count. (A larger example, built with `lex_render`, is at the end of
-`C06.lean`.) -/
-example : (Lex.all "(f #\\( \"a)\" ;)\n".toList).2 = none := by
-  simp [Lex.all, Lex.allAux, Lex.next, Lex.skipAtmosphere, Lex.token, Lex.isWs, Lex.adv,
-    Lex.character, Lex.takeRun, Lex.normalIdentifier, Lex.isDigit, Lex.isSubsequent,
-    Lex.isInitial, Lex.isLetter, Lex.isAsciiAlnum, Lex.endOfSharpToken, Lex.endOfToken,
-    Lex.testDelimiter, Lex.isDelimiter, Lex.string, Except.map, bind, Except.bind, pure,
-    Except.pure]
+/-- End to end on written token sequences: for supported tokens under any valid layout the
+counter answers "closed" iff the sequence has at least as many `)` as opening tokens — whatever
+parentheses occur inside its strings, characters, quoted identifiers and comments. -/
+theorem bracket_of_rendered (ts : List Token) (layout : List (List Char))
+    (hs : ∀ t ∈ ts, SupportedTok t) (hl : ValidLayout ts layout) :
+    Bracket.closed (interleave ts layout) = decide (depth ts ≤ 0) := by
+  obtain ⟨h1, h2⟩ := all_render ts layout hs hl
+  rw [bracket_agrees_with_reader' _ h2, h1]
 
-example : Bracket.closed "(f #\\( \"a)\" ;)\n".toList = false := by decide
+section Example
+/-- `(f #\( "a)" |b)| ;)` + newline + `#(1`: two lists are open; the parentheses in the character
+literal, the string, the quoted identifier and the comment count for neither side. -/
+private def sampleToks : List Token :=
+  [.lparen, .ident "f", .prim (.chr '('), .prim (.str "a)"), .ident "b)", .vecIntro,
+    .prim (.int 1)]
+
+private def sampleLayout : List (List Char) :=
+  [[], [], [' '], [' '], [' '], " ;)\n".toList, [], []]
+
+private def sampleToks_supported : ∀ t ∈ sampleToks, SupportedTok t := by
+  intro t ht
+  simp only [sampleToks, List.mem_cons, List.not_mem_nil, or_false] at ht
+  rcases ht with rfl | rfl | rfl | rfl | rfl | rfl | rfl
+  · trivial
+  · exact Or.inl (by decide)
+  · trivial
+  · trivial
+  · exact Or.inr (by decide)
+  · trivial
+  · show fitsI32 1 = true; decide
+
+example : interleave sampleToks sampleLayout = "(f #\\( \"a)\" |b)| ;)\n#(1".toList := by decide
+
+example : (Lex.all "(f #\\( \"a)\" |b)| ;)\n#(1".toList).1.map (·.tok) = sampleToks ∧
+    (Lex.all "(f #\\( \"a)\" |b)| ;)\n#(1".toList).2 = none := by
+  have h := all_render sampleToks sampleLayout sampleToks_supported (by decide)
+  exact h
+
+example : depth sampleToks = 2 := by decide
+
+example : Bracket.closed "(f #\\( \"a)\" |b)| ;)\n#(1".toList = false := by
+  have h := bracket_of_rendered sampleToks sampleLayout sampleToks_supported (by decide)
+  exact h
+
+/-- … and the counter computes the same answer by itself -/
+example : Bracket.closed "(f #\\( \"a)\" |b)| ;)\n#(1".toList = false := by decide
+
+/-- closing both lists closes the text -/
+example : Bracket.closed "(f #\\( \"a)\" |b)| ;)\n#(1))".toList = true := by decide
 end Example
 
 end Ruschm.C18
